@@ -155,7 +155,8 @@ def viDelete (r1 o1 r2 o2 : Int) (lnmode : Bool) : M Nat := do
   else
     edEdit none r1 (r2 + 1)
   let s' ← get
-  setPos r1 (if lnmode then indents (lines s') r1 else o1)
+  let row := if lnmode then min r1 (max 0 (lenOf s' - 1)) else r1
+  setPos row (if lnmode then indents (lines s') row else o1)
   pure VC_OK
 
 /-- `vi_change` -/
@@ -251,7 +252,7 @@ def vcMotion (cmd : Nat) : M Nat := do
     let (r1, r2, o1, o2) := if r1 > r2 then (r2, r1, o2, o1) else (r1, r2, o1, o2)
     let (o1, o2) := if r1 == r2 && o1 > o2 then (o2, o1) else (o1, o2)
     let o1 := noeol s r1 o1
-    let o2 := if !lnmode && strHas "fFtTeE%" mv && o2 < eol ls r2 then noeol s r2 o2 + 1 else o2
+    let o2 := if !lnmode && strHas "fteE%" mv && o2 < eol ls r2 then noeol s r2 o2 + 1 else o2
     if cmd == 121 then viYank r1 o1 r2 o2 lnmode
     else if cmd == 100 then viDelete r1 o1 r2 o2 lnmode
     else if cmd == 99 then viChange r1 o1 r2 o2 lnmode
